@@ -497,3 +497,4 @@ include!("svgen_expr.rs");
 include!("svgen_items.rs");
 include!("svgen_top.rs");
 include!("svgen_more.rs");
+include!("svgen_more2.rs");
